@@ -70,6 +70,10 @@ pub const KEEP_ALIVE_INTERVAL: u64 = 16;
 pub struct Connection<S, Stat, Disc, Filt, Stra, Auth, Loca> {
     stream: CipherStream<S, Aes128Cfb8Enc, Aes128Cfb8Dec>,
     buffer: Vec<u8>,
+    // the frame that is currently being received (including its length prefix)
+    inbound: Vec<u8>,
+    // encoded frames that the stream has not accepted yet
+    outbound: Vec<u8>,
 
     // adapters
     status_adapter: Arc<Stat>,
@@ -119,6 +123,8 @@ where
         Self {
             stream: CipherStream::from_stream(stream),
             buffer: Vec::with_capacity(INITIAL_BUFFER_SIZE),
+            inbound: Vec::with_capacity(INITIAL_BUFFER_SIZE),
+            outbound: Vec::with_capacity(INITIAL_BUFFER_SIZE),
             // adapters
             status_adapter,
             discovery_adapter,
@@ -158,13 +164,21 @@ where
         self
     }
 
+    /// Receives the next frame. This is cancellation safe: a partially received frame is kept in
+    /// `self.inbound`, so dropping the future (keep-alive tick, finished adapter call) loses no bytes.
     #[instrument(skip_all, fields(packet_length = field::Empty, packet_id = field::Empty))]
     async fn receive_packet(
         &mut self,
         keep_alive: bool,
     ) -> Result<(VarInt, Cursor<Vec<u8>>), Error> {
         // wait for the next packet, send keep-alive packets as necessary
-        let length = loop {
+        loop {
+            // check how many bytes of the frame are still missing (validates the length prefix)
+            let missing = self.missing_frame_bytes()?;
+            if missing == 0 {
+                break;
+            }
+
             tokio::select! {
                 // use biased selection such that branches are checked in order
                 biased;
@@ -187,48 +201,62 @@ where
                     let packet = conf_out::KeepAlivePacket { id };
                     self.send_packet(packet).await?;
                 },
-                // await the next packet in, reading the packet size (expect fast execution)
-                maybe_length = self.stream.read_varint().instrument(tracing::info_span!("read_packet_length", otel.kind = "server")) => {
-                    break maybe_length?;
+                // await the next bytes of the frame, never reading past its end
+                read = Self::read_frame_bytes(&mut self.stream, &mut self.inbound, missing).instrument(tracing::info_span!("read_packet_bytes", otel.kind = "server")) => {
+                    if read? == 0 {
+                        return Err(std::io::Error::from(std::io::ErrorKind::UnexpectedEof).into());
+                    }
                 },
             }
-        };
-
-        // check the length of the packet for any following content
-        if length <= 0 || length > self.max_packet_length {
-            debug!(
-                length,
-                "packet length should be between 0 and {}", self.max_packet_length
-            );
-            return Err(passage_packets::Error::IllegalPacketLength.into());
         }
+
+        // take the completed frame and split it into length, packet id and content
+        let mut frame = Cursor::new(std::mem::take(&mut self.inbound));
+        let length = frame.read_varint().await?;
+        let id = frame.read_varint().await?;
+        let position = usize::try_from(frame.position()).expect("position is within the frame");
+        let buffer = frame.into_inner().split_off(position);
 
         // track metrics
         let packet_size = u64::try_from(length).expect("length is always positive");
         metrics::packet_size::record_serverbound(packet_size);
         tracing::Span::current().record("packet_length", packet_size);
-
-        // extract the encoded packet id
-        let id = self
-            .stream
-            .read_varint()
-            .instrument(tracing::info_span!("read_packet_id", otel.kind = "server"))
-            .await?;
         tracing::Span::current().record("packet_id", id);
 
-        // split a separate reader from the stream and read packet bytes (advancing stream)
-        let mut buffer = vec![];
-        (&mut self.stream)
-            .take(length as u64 - 1)
-            .read_to_end(&mut buffer)
-            .instrument(tracing::info_span!(
-                "read_packet_bytes",
-                otel.kind = "server"
-            ))
-            .await?;
-        let buf = Cursor::new(buffer);
+        Ok((id, Cursor::new(buffer)))
+    }
 
-        Ok((id, buf))
+    /// Appends at most `missing` bytes from the stream to the frame that is being received.
+    async fn read_frame_bytes(
+        stream: &mut CipherStream<S, Aes128Cfb8Enc, Aes128Cfb8Dec>,
+        inbound: &mut Vec<u8>,
+        missing: usize,
+    ) -> std::io::Result<usize> {
+        stream.take(missing as u64).read_buf(inbound).await
+    }
+
+    /// Returns how many bytes are missing until `self.inbound` holds one complete frame. The length
+    /// prefix is checked as soon as it is complete, before any content is buffered.
+    fn missing_frame_bytes(&self) -> Result<usize, Error> {
+        let mut length: VarInt = 0;
+        for (i, byte) in self.inbound.iter().take(5).enumerate() {
+            length |= (VarInt::from(byte & 0b0111_1111)) << (7 * i);
+            if byte & 0b1000_0000 == 0 || i == 4 {
+                // check the length of the packet for any following content
+                if length <= 0 || length > self.max_packet_length {
+                    debug!(
+                        length,
+                        "packet length should be between 0 and {}", self.max_packet_length
+                    );
+                    return Err(passage_packets::Error::IllegalPacketLength.into());
+                }
+                let length = usize::try_from(length).expect("length is always positive");
+                return Ok((i + 1 + length).saturating_sub(self.inbound.len()));
+            }
+        }
+
+        // the length prefix is still incomplete, read it byte by byte
+        Ok(1)
     }
 
     #[instrument(skip_all)]
@@ -243,14 +271,13 @@ where
 
         // prepare a final buffer (leaving max 2 bytes for varint as packets never get that big)
         let packet_len = self.buffer.len();
-        // TODO reuse buffer here or write twice!
         let mut final_buffer = Vec::with_capacity(packet_len + 2);
         final_buffer.write_varint(packet_len as VarInt).await?;
         final_buffer.extend_from_slice(&self.buffer);
 
-        // send the final buffer into the stream
-        self.stream
-            .write_all(&final_buffer)
+        // queue the final buffer behind anything a cancelled send left over and send it all
+        self.outbound.extend_from_slice(&final_buffer);
+        self.flush_outbound()
             .instrument(tracing::info_span!("write_packet", otel.kind = "server"))
             .await?;
 
@@ -258,6 +285,20 @@ where
         let packet_size = u64::try_from(final_buffer.len()).expect("usize always fits into u64");
         metrics::packet_size::record_clientbound(packet_size);
 
+        Ok(())
+    }
+
+    /// Writes all queued frames into the stream. This is cancellation safe: bytes only leave
+    /// `self.outbound` once the stream accepted them, so a later call completes a frame that an
+    /// earlier (dropped) call had only sent partially.
+    async fn flush_outbound(&mut self) -> Result<(), Error> {
+        while !self.outbound.is_empty() {
+            let written = self.stream.write(&self.outbound).await?;
+            if written == 0 {
+                return Err(std::io::Error::from(std::io::ErrorKind::WriteZero).into());
+            }
+            self.outbound.drain(..written);
+        }
         Ok(())
     }
 
@@ -269,9 +310,11 @@ where
         }
     }
 
-    // TODO check whether this may result in partially written packets?
     /** Endlessly receives and sends keep-alive packets. It should be used with a `tokio::select!` */
     async fn keep_alive<T>(&mut self) -> Result<T, Error> {
+        // complete a frame that was only sent partially when a previous call was dropped
+        self.flush_outbound().await?;
+
         loop {
             match_packet! { self, keep_alive,
                 // handle keep alive packets
